@@ -13,6 +13,11 @@ ENGINES = [
 NOTES = "All checks: ./check <ID> --tier quick|thorough; exit 0 held / 1 VIOLATION / 2 harness error. Code under test is /repo's working tree (sys.path[0]); the harness installs numpy.Inf=numpy.inf in its own process (NumPy 2 compatibility, DESIGN 0.1)."
 NA = {}
 CHECKS = {
+ "C05": {
+  "technique": "differential property-based testing: every generated decay structure is rebuilt under each evaluation strategy selectable in the data section (cached_amp +stripped data, cached_shape, base_factor, p4_directly, use_tf_function +no_id_cached, jit_compile, lazy_call) and compared with plain eager evaluation on the first call, the second call on the same data object, after a change of the couplings, after restoring them, and with a chain subset; the likelihood value and gradient of cached-integral / cached-amplitude / lazy / traced configurations are compared with the default model; every contraction the amplitude builder emits, plus Hypothesis-generated contraction programs, are compared with numpy.einsum (a raise counts as 'declined')",
+  "text": "About 64 structures x 3-4 strategies x 5 comparisons, 12 likelihood cases and 4000 contraction programs per quick run (1200 / 300 / 2.3e5 thorough). Exploration level.",
+  "note": "Trusted: numpy.einsum, plain eager default evaluation of the same working tree (the differential reference; its own value is decided by C01/C04/C15). Line-shape parameters stay fixed (the applicability condition of the cached strategies); chain subsets are not asserted for traced (tf.function) strategies. The 'cached_angle' preprocessor never attaches its cache (build_cached is not called), so that option is exercised but equals the default path.",
+ },
  "C04": {
   "technique": "property-based testing: Hypothesis-generated spinless cascade cards and Dalitz events against an independent numpy closed-form reference; exhaustive 5x5x5 spin grid",
   "text": "Generated search (hundreds of cards per quick run, thousands thorough) comparing the library density with an independently coded closed formula at 1e-8; evidence proportional to the counted cases, no proof of absence.",
